@@ -226,8 +226,8 @@ Qed.
 Lemma last_app_nonempty {A} (x y : list A) d : y <> [] -> last (x ++ y) d = last y d.
 Proof.
   intro Hy. induction x as [|a x IH]; [reflexivity|]. cbn [app]. destruct (x ++ y) eqn:E.
-  - destruct x; [subst y; contradiction | discriminate].
-  - cbn [last]. rewrite <- E. exact IH.
+  - apply app_eq_nil in E as [_ E]. contradiction.
+  - cbn [last]. exact IH.
 Qed.
 
 Lemma hd_app_nonempty' {A} (x y : list A) d : x <> [] -> hd d (x ++ y) = hd d x.
@@ -281,7 +281,7 @@ Proof.
         cbn [hd forallb] in *. apply andb_true_iff in Hd as [Hc _]. exact Hc.
       * rewrite app_assoc, app_assoc, last_app_nonempty by apply zs_dec_nonempty.
         apply digit_not_ws, last_digits; [apply zs_dec_nonempty | apply digits_zs_dec].
-    + exact H0.
+    + exact H3.
 Qed.
 
 Lemma naked_text_snoc (A w : str) (c : N) : naked_text A -> forallb amt_char A = true ->
@@ -325,7 +325,7 @@ Proof.
       rewrite (p_string_naked_name (print_amt am) w nm fuel k o b A Hw Hn Hk Hc). reflexivity.
     + eexists. right. exists w', (R ++ w ++ print_name nm ++ k). eexists. split; [exact Hw'|].
       unfold p_name. rewrite E. repeat rewrite <- app_assoc. cbn [app].
-      rewrite (p_string_naked_stop Y w' 47 fuel _ o b HY Hw' eq_refl eq_refl) by lia. reflexivity.
+      rewrite (p_string_naked_stop Y w' 47 fuel _ o b HY Hw' eq_refl eq_refl) by (unfold name_cost in Hc; lia). reflexivity.
   - apply andb_true_iff in Hok as [Hn _]. eexists. left. cbn [app].
     rewrite (name_roundtrip nm fuel k o b Hn Hk) by lia. reflexivity.
 Qed.
